@@ -341,6 +341,8 @@ def expr_key(n):
         return json.dumps(n.get('str', ''))
     if k == 'BinaryOperator':
         return '(' + expr_key(kids(n)[0]) + n['op'] + expr_key(kids(n)[1]) + ')'
+    if k in ('CXXConstructExpr', 'CXXTemporaryObjectExpr', 'CXXFunctionalCastExpr') and len(kids(n)) == 1:
+        return expr_key(kids(n)[0])
     if k == 'CXXNullPtrLiteralExpr':
         return 'nullptr'
     if 'cv' in n:
